@@ -973,6 +973,19 @@ pub fn lim_configs(tier: Tier) -> Vec<LimCfg> {
     for (ep, cp) in variants {
         v.push(LimCfg { ep, connect_props: cp, probes: all5.clone() });
     }
+    // maximum QoS: every configured value against every value granted by the handshake service, also downwards
+    // by two levels (seeded change C19_r4: the granted level's flag was set without clearing the configured one)
+    for configured in 0u8..=2 {
+        for granted in [None, Some(0u8), Some(1), Some(2)] {
+            if (configured == 1 && matches!(granted, None | Some(0))) || (configured == 2 && granted.is_none()) {
+                continue; // covered above
+            }
+            let mut ep = base5();
+            ep.max_qos = configured;
+            ep.hs_max_qos = granted;
+            v.push(LimCfg { ep, connect_props: vec![], probes: vec![ConnAck, QosOk, QosOver] });
+        }
+    }
     // ---- v3 server
     for f in 0..5 {
         let mut ep = EpCfg::new(Ver::V3, Role::Server);
